@@ -1,0 +1,2391 @@
+	.file	"testlib.c"
+	.text
+.Ltext0:
+	.file 0 "/repo/aldor/aldor/src" "test/testlib.c"
+	.local	failed
+	.comm	failed,4,4
+	.local	count
+	.comm	count,4,4
+	.section	.rodata
+.LC0:
+	.string	"(Starting test %s\n"
+.LC1:
+	.string	"fluidlevel"
+.LC2:
+	.string	"complete"
+.LC3:
+	.string	"FAILED"
+.LC4:
+	.string	" Test %s %s)\n"
+	.text
+	.globl	showTest
+	.type	showTest, @function
+showTest:
+.LFB0:
+	.file 1 "test/testlib.c"
+	.loc 1 31 1
+	.cfi_startproc
+	pushq	%rbp
+	.cfi_def_cfa_offset 16
+	.cfi_offset 6, -16
+	movq	%rsp, %rbp
+	.cfi_def_cfa_register 6
+	subq	$32, %rsp
+	movq	%rdi, -24(%rbp)
+	movq	%rsi, -32(%rbp)
+	.loc 1 32 6
+	movl	failed(%rip), %eax
+	movl	%eax, -4(%rbp)
+	.loc 1 33 6
+	movl	fluidLevel(%rip), %eax
+	movl	%eax, -8(%rbp)
+	.loc 1 34 2
+	movq	-24(%rbp), %rax
+	movq	%rax, %rsi
+	leaq	.LC0(%rip), %rax
+	movq	%rax, %rdi
+	movl	$0, %eax
+	call	printf@PLT
+	.loc 1 35 2
+	movq	-32(%rbp), %rax
+	call	*%rax
+.LVL0:
+	.loc 1 36 2
+	movl	fluidLevel(%rip), %edx
+	movl	-8(%rbp), %eax
+	movl	%eax, %esi
+	leaq	.LC1(%rip), %rax
+	movq	%rax, %rdi
+	call	testIntEqual
+	.loc 1 39 20
+	movl	failed(%rip), %eax
+	.loc 1 38 2
+	cmpl	%eax, -4(%rbp)
+	jne	.L2
+	.loc 1 38 2 is_stmt 0 discriminator 1
+	leaq	.LC2(%rip), %rax
+	jmp	.L3
+.L2:
+	.loc 1 38 2 discriminator 2
+	leaq	.LC3(%rip), %rax
+.L3:
+	.loc 1 38 2 discriminator 4
+	movq	-24(%rbp), %rcx
+	movq	%rax, %rdx
+	movq	%rcx, %rsi
+	leaq	.LC4(%rip), %rax
+	movq	%rax, %rdi
+	movl	$0, %eax
+	call	printf@PLT
+	.loc 1 40 1 is_stmt 1 discriminator 4
+	nop
+	leave
+	.cfi_def_cfa 7, 8
+	ret
+	.cfi_endproc
+.LFE0:
+	.size	showTest, .-showTest
+	.section	.rodata
+.LC5:
+	.string	"failed; expected %s, got %s"
+	.text
+	.globl	testStringEqual
+	.type	testStringEqual, @function
+testStringEqual:
+.LFB1:
+	.loc 1 44 1
+	.cfi_startproc
+	pushq	%rbp
+	.cfi_def_cfa_offset 16
+	.cfi_offset 6, -16
+	movq	%rsp, %rbp
+	.cfi_def_cfa_register 6
+	subq	$32, %rsp
+	movq	%rdi, -8(%rbp)
+	movq	%rsi, -16(%rbp)
+	movq	%rdx, -24(%rbp)
+	.loc 1 45 7
+	movl	count(%rip), %eax
+	addl	$1, %eax
+	movl	%eax, count(%rip)
+	.loc 1 46 6
+	movq	-24(%rbp), %rdx
+	movq	-16(%rbp), %rax
+	movq	%rdx, %rsi
+	movq	%rax, %rdi
+	call	strcmp@PLT
+	.loc 1 46 5
+	testl	%eax, %eax
+	je	.L7
+	.loc 1 49 2
+	movq	-24(%rbp), %rcx
+	movq	-16(%rbp), %rdx
+	movq	-8(%rbp), %rax
+	leaq	.LC5(%rip), %rsi
+	movq	%rax, %rdi
+	movl	$0, %eax
+	call	testFail
+	jmp	.L4
+.L7:
+	.loc 1 47 3
+	nop
+.L4:
+	.loc 1 50 1
+	leave
+	.cfi_def_cfa 7, 8
+	ret
+	.cfi_endproc
+.LFE1:
+	.size	testStringEqual, .-testStringEqual
+	.section	.rodata
+.LC6:
+	.string	"failed; expected %d, got %d"
+	.text
+	.globl	testIntEqual
+	.type	testIntEqual, @function
+testIntEqual:
+.LFB2:
+	.loc 1 54 1
+	.cfi_startproc
+	pushq	%rbp
+	.cfi_def_cfa_offset 16
+	.cfi_offset 6, -16
+	movq	%rsp, %rbp
+	.cfi_def_cfa_register 6
+	subq	$16, %rsp
+	movq	%rdi, -8(%rbp)
+	movl	%esi, -12(%rbp)
+	movl	%edx, -16(%rbp)
+	.loc 1 55 7
+	movl	count(%rip), %eax
+	addl	$1, %eax
+	movl	%eax, count(%rip)
+	.loc 1 56 5
+	movl	-12(%rbp), %eax
+	cmpl	-16(%rbp), %eax
+	je	.L11
+	.loc 1 59 2
+	movl	-16(%rbp), %ecx
+	movl	-12(%rbp), %edx
+	movq	-8(%rbp), %rax
+	leaq	.LC6(%rip), %rsi
+	movq	%rax, %rdi
+	movl	$0, %eax
+	call	testFail
+	jmp	.L8
+.L11:
+	.loc 1 57 3
+	nop
+.L8:
+	.loc 1 60 1
+	leave
+	.cfi_def_cfa 7, 8
+	ret
+	.cfi_endproc
+.LFE2:
+	.size	testIntEqual, .-testIntEqual
+	.section	.rodata
+	.align 8
+.LC7:
+	.string	"failed; expected %pAInt, got %pAInt"
+	.text
+	.globl	testAIntEqual
+	.type	testAIntEqual, @function
+testAIntEqual:
+.LFB3:
+	.loc 1 64 1
+	.cfi_startproc
+	pushq	%rbp
+	.cfi_def_cfa_offset 16
+	.cfi_offset 6, -16
+	movq	%rsp, %rbp
+	.cfi_def_cfa_register 6
+	subq	$32, %rsp
+	movq	%rdi, -8(%rbp)
+	movq	%rsi, -16(%rbp)
+	movq	%rdx, -24(%rbp)
+	.loc 1 65 7
+	movl	count(%rip), %eax
+	addl	$1, %eax
+	movl	%eax, count(%rip)
+	.loc 1 66 5
+	movq	-16(%rbp), %rax
+	cmpq	-24(%rbp), %rax
+	je	.L15
+	.loc 1 69 2
+	movq	-24(%rbp), %rcx
+	movq	-16(%rbp), %rdx
+	movq	-8(%rbp), %rax
+	leaq	.LC7(%rip), %rsi
+	movq	%rax, %rdi
+	movl	$0, %eax
+	call	testFail
+	jmp	.L12
+.L15:
+	.loc 1 67 3
+	nop
+.L12:
+	.loc 1 70 1
+	leave
+	.cfi_def_cfa 7, 8
+	ret
+	.cfi_endproc
+.LFE3:
+	.size	testAIntEqual, .-testAIntEqual
+	.section	.rodata
+	.align 8
+.LC8:
+	.string	"failed; expected non-zero value"
+	.text
+	.globl	testIntIsNotZero
+	.type	testIntIsNotZero, @function
+testIntIsNotZero:
+.LFB4:
+	.loc 1 74 1
+	.cfi_startproc
+	pushq	%rbp
+	.cfi_def_cfa_offset 16
+	.cfi_offset 6, -16
+	movq	%rsp, %rbp
+	.cfi_def_cfa_register 6
+	subq	$16, %rsp
+	movq	%rdi, -8(%rbp)
+	movl	%esi, -12(%rbp)
+	.loc 1 75 7
+	movl	count(%rip), %eax
+	addl	$1, %eax
+	movl	%eax, count(%rip)
+	.loc 1 76 5
+	cmpl	$0, -12(%rbp)
+	jne	.L19
+	.loc 1 79 2
+	movq	-8(%rbp), %rax
+	leaq	.LC8(%rip), %rdx
+	movq	%rdx, %rsi
+	movq	%rax, %rdi
+	movl	$0, %eax
+	call	testFail
+	jmp	.L16
+.L19:
+	.loc 1 77 3
+	nop
+.L16:
+	.loc 1 80 1
+	leave
+	.cfi_def_cfa 7, 8
+	ret
+	.cfi_endproc
+.LFE4:
+	.size	testIntIsNotZero, .-testIntIsNotZero
+	.section	.rodata
+.LC9:
+	.string	"failed; expected %p, got %p"
+	.text
+	.globl	testPointerEqual
+	.type	testPointerEqual, @function
+testPointerEqual:
+.LFB5:
+	.loc 1 84 1
+	.cfi_startproc
+	pushq	%rbp
+	.cfi_def_cfa_offset 16
+	.cfi_offset 6, -16
+	movq	%rsp, %rbp
+	.cfi_def_cfa_register 6
+	subq	$32, %rsp
+	movq	%rdi, -8(%rbp)
+	movq	%rsi, -16(%rbp)
+	movq	%rdx, -24(%rbp)
+	.loc 1 85 7
+	movl	count(%rip), %eax
+	addl	$1, %eax
+	movl	%eax, count(%rip)
+	.loc 1 86 5
+	movq	-16(%rbp), %rax
+	cmpq	-24(%rbp), %rax
+	je	.L23
+	.loc 1 89 2
+	movq	-24(%rbp), %rcx
+	movq	-16(%rbp), %rdx
+	movq	-8(%rbp), %rax
+	leaq	.LC9(%rip), %rsi
+	movq	%rax, %rdi
+	movl	$0, %eax
+	call	testFail
+	jmp	.L20
+.L23:
+	.loc 1 87 3
+	nop
+.L20:
+	.loc 1 90 1
+	leave
+	.cfi_def_cfa 7, 8
+	ret
+	.cfi_endproc
+.LFE5:
+	.size	testPointerEqual, .-testPointerEqual
+	.section	.rodata
+.LC10:
+	.string	"failed; expected true, got %d"
+	.text
+	.globl	testTrue
+	.type	testTrue, @function
+testTrue:
+.LFB6:
+	.loc 1 94 1
+	.cfi_startproc
+	pushq	%rbp
+	.cfi_def_cfa_offset 16
+	.cfi_offset 6, -16
+	movq	%rsp, %rbp
+	.cfi_def_cfa_register 6
+	subq	$16, %rsp
+	movq	%rdi, -8(%rbp)
+	movl	%esi, -12(%rbp)
+	.loc 1 95 7
+	movl	count(%rip), %eax
+	addl	$1, %eax
+	movl	%eax, count(%rip)
+	.loc 1 96 5
+	cmpl	$0, -12(%rbp)
+	jne	.L27
+	.loc 1 99 2
+	movl	-12(%rbp), %edx
+	movq	-8(%rbp), %rax
+	leaq	.LC10(%rip), %rcx
+	movq	%rcx, %rsi
+	movq	%rax, %rdi
+	movl	$0, %eax
+	call	testFail
+	jmp	.L24
+.L27:
+	.loc 1 97 3
+	nop
+.L24:
+	.loc 1 100 1
+	leave
+	.cfi_def_cfa 7, 8
+	ret
+	.cfi_endproc
+.LFE6:
+	.size	testTrue, .-testTrue
+	.section	.rodata
+	.align 8
+.LC11:
+	.string	"failed; expected false, got %d"
+	.text
+	.globl	testFalse
+	.type	testFalse, @function
+testFalse:
+.LFB7:
+	.loc 1 104 1
+	.cfi_startproc
+	pushq	%rbp
+	.cfi_def_cfa_offset 16
+	.cfi_offset 6, -16
+	movq	%rsp, %rbp
+	.cfi_def_cfa_register 6
+	subq	$16, %rsp
+	movq	%rdi, -8(%rbp)
+	movl	%esi, -12(%rbp)
+	.loc 1 105 7
+	movl	count(%rip), %eax
+	addl	$1, %eax
+	movl	%eax, count(%rip)
+	.loc 1 106 5
+	cmpl	$0, -12(%rbp)
+	je	.L31
+	.loc 1 109 2
+	movl	-12(%rbp), %edx
+	movq	-8(%rbp), %rax
+	leaq	.LC11(%rip), %rcx
+	movq	%rcx, %rsi
+	movq	%rax, %rdi
+	movl	$0, %eax
+	call	testFail
+	jmp	.L28
+.L31:
+	.loc 1 107 3
+	nop
+.L28:
+	.loc 1 110 1
+	leave
+	.cfi_def_cfa 7, 8
+	ret
+	.cfi_endproc
+.LFE7:
+	.size	testFalse, .-testFalse
+	.section	.rodata
+.LC12:
+	.string	"failed; expected null, got %d"
+	.text
+	.globl	testIsNull
+	.type	testIsNull, @function
+testIsNull:
+.LFB8:
+	.loc 1 114 1
+	.cfi_startproc
+	pushq	%rbp
+	.cfi_def_cfa_offset 16
+	.cfi_offset 6, -16
+	movq	%rsp, %rbp
+	.cfi_def_cfa_register 6
+	subq	$16, %rsp
+	movq	%rdi, -8(%rbp)
+	movq	%rsi, -16(%rbp)
+	.loc 1 115 7
+	movl	count(%rip), %eax
+	addl	$1, %eax
+	movl	%eax, count(%rip)
+	.loc 1 116 5
+	cmpq	$0, -16(%rbp)
+	je	.L35
+	.loc 1 119 2
+	movq	-16(%rbp), %rdx
+	movq	-8(%rbp), %rax
+	leaq	.LC12(%rip), %rcx
+	movq	%rcx, %rsi
+	movq	%rax, %rdi
+	movl	$0, %eax
+	call	testFail
+	jmp	.L32
+.L35:
+	.loc 1 117 3
+	nop
+.L32:
+	.loc 1 120 1
+	leave
+	.cfi_def_cfa 7, 8
+	ret
+	.cfi_endproc
+.LFE8:
+	.size	testIsNull, .-testIsNull
+	.section	.rodata
+	.align 8
+.LC13:
+	.string	"failed; expected non-null, got %d"
+	.text
+	.globl	testIsNotNull
+	.type	testIsNotNull, @function
+testIsNotNull:
+.LFB9:
+	.loc 1 125 1
+	.cfi_startproc
+	pushq	%rbp
+	.cfi_def_cfa_offset 16
+	.cfi_offset 6, -16
+	movq	%rsp, %rbp
+	.cfi_def_cfa_register 6
+	subq	$16, %rsp
+	movq	%rdi, -8(%rbp)
+	movq	%rsi, -16(%rbp)
+	.loc 1 126 7
+	movl	count(%rip), %eax
+	addl	$1, %eax
+	movl	%eax, count(%rip)
+	.loc 1 127 5
+	cmpq	$0, -16(%rbp)
+	jne	.L39
+	.loc 1 130 2
+	movq	-16(%rbp), %rdx
+	movq	-8(%rbp), %rax
+	leaq	.LC13(%rip), %rcx
+	movq	%rcx, %rsi
+	movq	%rax, %rdi
+	movl	$0, %eax
+	call	testFail
+	jmp	.L36
+.L39:
+	.loc 1 128 3
+	nop
+.L36:
+	.loc 1 131 1
+	leave
+	.cfi_def_cfa 7, 8
+	ret
+	.cfi_endproc
+.LFE9:
+	.size	testIsNotNull, .-testIsNotNull
+	.section	.rodata
+.LC14:
+	.string	"[%s]:"
+	.text
+	.type	testFail, @function
+testFail:
+.LFB10:
+	.loc 1 136 1
+	.cfi_startproc
+	pushq	%rbp
+	.cfi_def_cfa_offset 16
+	.cfi_offset 6, -16
+	movq	%rsp, %rbp
+	.cfi_def_cfa_register 6
+	subq	$224, %rsp
+	movq	%rdi, -216(%rbp)
+	movq	%rsi, -224(%rbp)
+	movq	%rdx, -160(%rbp)
+	movq	%rcx, -152(%rbp)
+	movq	%r8, -144(%rbp)
+	movq	%r9, -136(%rbp)
+	testb	%al, %al
+	je	.L42
+	movaps	%xmm0, -128(%rbp)
+	movaps	%xmm1, -112(%rbp)
+	movaps	%xmm2, -96(%rbp)
+	movaps	%xmm3, -80(%rbp)
+	movaps	%xmm4, -64(%rbp)
+	movaps	%xmm5, -48(%rbp)
+	movaps	%xmm6, -32(%rbp)
+	movaps	%xmm7, -16(%rbp)
+.L42:
+	.loc 1 139 2
+	movq	-216(%rbp), %rax
+	movq	%rax, %rsi
+	leaq	.LC14(%rip), %rax
+	movq	%rax, %rdi
+	movl	$0, %eax
+	call	printf@PLT
+	.loc 1 140 1
+	movl	$16, -200(%rbp)
+	movl	$48, -196(%rbp)
+	leaq	16(%rbp), %rax
+	movq	%rax, -192(%rbp)
+	leaq	-176(%rbp), %rax
+	movq	%rax, -184(%rbp)
+	.loc 1 141 2
+	leaq	-200(%rbp), %rdx
+	movq	-224(%rbp), %rax
+	movq	%rdx, %rsi
+	movq	%rax, %rdi
+	call	avprintf@PLT
+	.loc 1 142 2
+	movl	$10, %edi
+	call	putchar@PLT
+	.loc 1 145 8
+	movl	failed(%rip), %eax
+	addl	$1, %eax
+	movl	%eax, failed(%rip)
+	.loc 1 146 1
+	nop
+	leave
+	.cfi_def_cfa 7, 8
+	ret
+	.cfi_endproc
+.LFE10:
+	.size	testFail, .-testFail
+	.section	.rodata
+.LC15:
+	.string	"Tests Failed: %d/%d\n"
+	.text
+	.globl	testShowSummary
+	.type	testShowSummary, @function
+testShowSummary:
+.LFB11:
+	.loc 1 150 1
+	.cfi_startproc
+	pushq	%rbp
+	.cfi_def_cfa_offset 16
+	.cfi_offset 6, -16
+	movq	%rsp, %rbp
+	.cfi_def_cfa_register 6
+	.loc 1 151 2
+	movl	count(%rip), %edx
+	movl	failed(%rip), %eax
+	movl	%eax, %esi
+	leaq	.LC15(%rip), %rax
+	movq	%rax, %rdi
+	movl	$0, %eax
+	call	printf@PLT
+	.loc 1 152 1
+	nop
+	popq	%rbp
+	.cfi_def_cfa 7, 8
+	ret
+	.cfi_endproc
+.LFE11:
+	.size	testShowSummary, .-testShowSummary
+	.globl	testAllPassed
+	.type	testAllPassed, @function
+testAllPassed:
+.LFB12:
+	.loc 1 156 1
+	.cfi_startproc
+	pushq	%rbp
+	.cfi_def_cfa_offset 16
+	.cfi_offset 6, -16
+	movq	%rsp, %rbp
+	.cfi_def_cfa_register 6
+	.loc 1 157 16
+	movl	failed(%rip), %eax
+	testl	%eax, %eax
+	sete	%al
+	movzbl	%al, %eax
+	.loc 1 158 1
+	popq	%rbp
+	.cfi_def_cfa 7, 8
+	ret
+	.cfi_endproc
+.LFE12:
+	.size	testAllPassed, .-testAllPassed
+	.local	inFile
+	.comm	inFile,4,4
+	.section	.rodata
+.LC16:
+	.string	"missing 'finiFile()'"
+.LC17:
+	.string	"<init>"
+	.text
+	.globl	initFile
+	.type	initFile, @function
+initFile:
+.LFB13:
+	.loc 1 164 1
+	.cfi_startproc
+	pushq	%rbp
+	.cfi_def_cfa_offset 16
+	.cfi_offset 6, -16
+	movq	%rsp, %rbp
+	.cfi_def_cfa_register 6
+	.loc 1 165 6
+	movl	inFile(%rip), %eax
+	.loc 1 165 5
+	testl	%eax, %eax
+	je	.L47
+	.loc 1 166 3
+	leaq	.LC16(%rip), %rax
+	movq	%rax, %rsi
+	leaq	.LC17(%rip), %rax
+	movq	%rax, %rdi
+	movl	$0, %eax
+	call	testFail
+.L47:
+	.loc 1 168 2
+	call	macexInitFile@PLT
+	.loc 1 169 2
+	call	comsgInit@PLT
+	.loc 1 170 2
+	call	scobindInitFile@PLT
+	.loc 1 171 2
+	call	stabInitFile@PLT
+	.loc 1 172 9
+	movl	$1, inFile(%rip)
+	.loc 1 173 1
+	nop
+	popq	%rbp
+	.cfi_def_cfa 7, 8
+	ret
+	.cfi_endproc
+.LFE13:
+	.size	initFile, .-initFile
+	.section	.rodata
+.LC18:
+	.string	"missing 'initFile()'"
+	.text
+	.globl	finiFile
+	.type	finiFile, @function
+finiFile:
+.LFB14:
+	.loc 1 177 1
+	.cfi_startproc
+	pushq	%rbp
+	.cfi_def_cfa_offset 16
+	.cfi_offset 6, -16
+	movq	%rsp, %rbp
+	.cfi_def_cfa_register 6
+	.loc 1 178 6
+	movl	inFile(%rip), %eax
+	.loc 1 178 5
+	testl	%eax, %eax
+	jne	.L49
+	.loc 1 179 3
+	leaq	.LC18(%rip), %rax
+	movq	%rax, %rsi
+	leaq	.LC17(%rip), %rax
+	movq	%rax, %rdi
+	movl	$0, %eax
+	call	testFail
+.L49:
+	.loc 1 182 2
+	call	scobindFiniFile@PLT
+	.loc 1 183 2
+	call	stabFiniFile@PLT
+	.loc 1 184 2
+	call	comsgFini@PLT
+	.loc 1 185 2
+	call	macexFiniFile@PLT
+	.loc 1 187 2
+	movl	$0, %eax
+	call	cmdDebugReset@PLT
+	.loc 1 188 9
+	movl	$0, inFile(%rip)
+	.loc 1 189 1
+	nop
+	popq	%rbp
+	.cfi_def_cfa 7, 8
+	ret
+	.cfi_endproc
+.LFE14:
+	.size	finiFile, .-finiFile
+	.globl	init
+	.type	init, @function
+init:
+.LFB15:
+	.loc 1 193 1
+	.cfi_startproc
+	pushq	%rbp
+	.cfi_def_cfa_offset 16
+	.cfi_offset 6, -16
+	movq	%rsp, %rbp
+	.cfi_def_cfa_register 6
+	.loc 1 194 2
+	call	osInit@PLT
+	.loc 1 195 2
+	call	sxiInit@PLT
+	.loc 1 196 2
+	call	keyInit@PLT
+	.loc 1 197 2
+	call	ssymInit@PLT
+	.loc 1 198 2
+	call	dbInit@PLT
+	.loc 1 199 2
+	call	stabInitGlobal@PLT
+	.loc 1 200 2
+	call	tfInit@PLT
+	.loc 1 201 2
+	movl	$0, %eax
+	call	fmttsInit@PLT
+	.loc 1 202 2
+	call	foamInit@PLT
+	.loc 1 203 2
+	call	optInit@PLT
+	.loc 1 204 2
+	movl	$0, %eax
+	call	tinferInit@PLT
+	.loc 1 206 2
+	call	sposInit@PLT
+	.loc 1 207 2
+	call	ablogInit@PLT
+	.loc 1 208 2
+	call	comsgInit@PLT
+	.loc 1 209 1
+	nop
+	popq	%rbp
+	.cfi_def_cfa 7, 8
+	ret
+	.cfi_endproc
+.LFE15:
+	.size	init, .-init
+	.section	.rodata
+.LC19:
+	.string	"Missing fini"
+.LC20:
+	.string	"<fini>"
+	.text
+	.globl	fini
+	.type	fini, @function
+fini:
+.LFB16:
+	.loc 1 213 1
+	.cfi_startproc
+	pushq	%rbp
+	.cfi_def_cfa_offset 16
+	.cfi_offset 6, -16
+	movq	%rsp, %rbp
+	.cfi_def_cfa_register 6
+	.loc 1 214 2
+	call	saveAndEmptyAllPhaseSymbolData@PLT
+	.loc 1 216 6
+	movl	inFile(%rip), %eax
+	.loc 1 216 5
+	testl	%eax, %eax
+	je	.L52
+	.loc 1 217 3
+	leaq	.LC19(%rip), %rax
+	movq	%rax, %rsi
+	leaq	.LC20(%rip), %rax
+	movq	%rax, %rdi
+	movl	$0, %eax
+	call	testFail
+.L52:
+	.loc 1 219 2
+	call	dbFini@PLT
+	.loc 1 220 1
+	nop
+	popq	%rbp
+	.cfi_def_cfa 7, 8
+	ret
+	.cfi_endproc
+.LFE16:
+	.size	fini, .-fini
+.Letext0:
+	.file 2 "<built-in>"
+	.file 3 "/usr/lib/gcc/x86_64-linux-gnu/12/include/stdarg.h"
+	.file 4 "./cport.h"
+	.file 5 "./axlobs.h"
+	.file 6 "./symbol.h"
+	.file 7 "./phase.h"
+	.file 8 "./debug.h"
+	.file 9 "./ablogic.h"
+	.file 10 "./srcpos.h"
+	.file 11 "./optfoam.h"
+	.file 12 "./foam.h"
+	.file 13 "./tinfer.h"
+	.file 14 "./formatters.h"
+	.file 15 "./tform.h"
+	.file 16 "./stab.h"
+	.file 17 "./spesym.h"
+	.file 18 "./token.h"
+	.file 19 "./sexpr.h"
+	.file 20 "./opsys.h"
+	.file 21 "./cmdline.h"
+	.file 22 "./macex.h"
+	.file 23 "./comsg.h"
+	.file 24 "./scobind.h"
+	.file 25 "./format.h"
+	.file 26 "/usr/include/string.h"
+	.file 27 "/usr/include/stdio.h"
+	.section	.debug_info,"",@progbits
+.Ldebug_info0:
+	.long	0x6a8
+	.value	0x5
+	.byte	0x1
+	.byte	0x8
+	.long	.Ldebug_abbrev0
+	.uleb128 0x14
+	.long	.LASF83
+	.byte	0xc
+	.long	.LASF0
+	.long	.LASF1
+	.quad	.Ltext0
+	.quad	.Letext0-.Ltext0
+	.long	.Ldebug_line0
+	.uleb128 0x15
+	.byte	0x4
+	.byte	0x5
+	.string	"int"
+	.uleb128 0x3
+	.byte	0x1
+	.byte	0x8
+	.long	.LASF2
+	.uleb128 0x3
+	.byte	0x2
+	.byte	0x7
+	.long	.LASF3
+	.uleb128 0x3
+	.byte	0x4
+	.byte	0x7
+	.long	.LASF4
+	.uleb128 0x3
+	.byte	0x8
+	.byte	0x7
+	.long	.LASF5
+	.uleb128 0x3
+	.byte	0x1
+	.byte	0x6
+	.long	.LASF6
+	.uleb128 0x3
+	.byte	0x2
+	.byte	0x5
+	.long	.LASF7
+	.uleb128 0x3
+	.byte	0x8
+	.byte	0x5
+	.long	.LASF8
+	.uleb128 0x16
+	.byte	0x8
+	.uleb128 0x6
+	.long	0x6d
+	.uleb128 0x3
+	.byte	0x1
+	.byte	0x6
+	.long	.LASF9
+	.uleb128 0x17
+	.long	0x6d
+	.uleb128 0x3
+	.byte	0x4
+	.byte	0x4
+	.long	.LASF10
+	.uleb128 0x3
+	.byte	0x8
+	.byte	0x4
+	.long	.LASF11
+	.uleb128 0x8
+	.long	.LASF16
+	.byte	0x3
+	.byte	0x28
+	.byte	0x1b
+	.long	0x93
+	.uleb128 0x18
+	.long	.LASF84
+	.long	0x9c
+	.uleb128 0x19
+	.long	0xac
+	.long	0xac
+	.uleb128 0x1a
+	.long	0x4a
+	.byte	0
+	.byte	0
+	.uleb128 0x1b
+	.long	.LASF85
+	.byte	0x18
+	.byte	0x2
+	.byte	0
+	.long	0xe1
+	.uleb128 0xc
+	.long	.LASF12
+	.long	0x43
+	.byte	0
+	.uleb128 0xc
+	.long	.LASF13
+	.long	0x43
+	.byte	0x4
+	.uleb128 0xc
+	.long	.LASF14
+	.long	0x66
+	.byte	0x8
+	.uleb128 0xc
+	.long	.LASF15
+	.long	0x66
+	.byte	0x10
+	.byte	0
+	.uleb128 0x8
+	.long	.LASF17
+	.byte	0x3
+	.byte	0x63
+	.byte	0x18
+	.long	0x87
+	.uleb128 0x3
+	.byte	0x8
+	.byte	0x5
+	.long	.LASF18
+	.uleb128 0x6
+	.long	0x74
+	.uleb128 0x9
+	.long	.LASF19
+	.value	0x141
+	.byte	0x10
+	.long	0x5f
+	.uleb128 0x9
+	.long	.LASF20
+	.value	0x156
+	.byte	0xd
+	.long	0x2e
+	.uleb128 0x9
+	.long	.LASF21
+	.value	0x166
+	.byte	0x12
+	.long	0x66
+	.uleb128 0x9
+	.long	.LASF22
+	.value	0x16a
+	.byte	0xf
+	.long	0x68
+	.uleb128 0x9
+	.long	.LASF23
+	.value	0x17a
+	.byte	0x10
+	.long	0x80
+	.uleb128 0x6
+	.long	0xac
+	.uleb128 0x8
+	.long	.LASF24
+	.byte	0x5
+	.byte	0x19
+	.byte	0x19
+	.long	0x146
+	.uleb128 0x6
+	.long	0x14b
+	.uleb128 0xf
+	.long	.LASF26
+	.byte	0x6
+	.byte	0x19
+	.byte	0x8
+	.long	0x171
+	.uleb128 0xd
+	.long	.LASF25
+	.byte	0x6
+	.byte	0x1a
+	.byte	0x13
+	.long	0x171
+	.byte	0
+	.uleb128 0x11
+	.string	"str"
+	.byte	0x6
+	.byte	0x1b
+	.long	0x11d
+	.byte	0x8
+	.byte	0
+	.uleb128 0x6
+	.long	0x129
+	.uleb128 0xf
+	.long	.LASF27
+	.byte	0x7
+	.byte	0x6b
+	.byte	0x8
+	.long	0x19c
+	.uleb128 0x11
+	.string	"sym"
+	.byte	0x7
+	.byte	0x6c
+	.long	0x13a
+	.byte	0
+	.uleb128 0xd
+	.long	.LASF28
+	.byte	0x7
+	.byte	0x6d
+	.byte	0xa
+	.long	0x111
+	.byte	0x8
+	.byte	0
+	.uleb128 0x8
+	.long	.LASF29
+	.byte	0x7
+	.byte	0x70
+	.byte	0x1e
+	.long	0x1a8
+	.uleb128 0x6
+	.long	0x176
+	.uleb128 0xf
+	.long	.LASF30
+	.byte	0x7
+	.byte	0x72
+	.byte	0x10
+	.long	0x1d4
+	.uleb128 0xd
+	.long	.LASF31
+	.byte	0x7
+	.byte	0x72
+	.byte	0x3a
+	.long	0x19c
+	.byte	0
+	.uleb128 0xd
+	.long	.LASF32
+	.byte	0x7
+	.byte	0x72
+	.byte	0x61
+	.long	0x1d4
+	.byte	0x8
+	.byte	0
+	.uleb128 0x6
+	.long	0x1ad
+	.uleb128 0x8
+	.long	.LASF33
+	.byte	0x7
+	.byte	0x72
+	.byte	0x6a
+	.long	0x1d4
+	.uleb128 0x7
+	.long	.LASF34
+	.byte	0x16
+	.byte	0xc
+	.long	0x2e
+	.uleb128 0x9
+	.byte	0x3
+	.quad	failed
+	.uleb128 0x7
+	.long	.LASF35
+	.byte	0x17
+	.byte	0xc
+	.long	0x2e
+	.uleb128 0x9
+	.byte	0x3
+	.quad	count
+	.uleb128 0x1c
+	.long	.LASF86
+	.byte	0x1
+	.byte	0x1b
+	.byte	0xc
+	.long	0x2e
+	.uleb128 0x7
+	.long	.LASF36
+	.byte	0xa0
+	.byte	0xd
+	.long	0x105
+	.uleb128 0x9
+	.byte	0x3
+	.quad	inFile
+	.uleb128 0x1
+	.long	.LASF37
+	.byte	0x8
+	.byte	0x2a
+	.uleb128 0x1d
+	.long	.LASF87
+	.byte	0x7
+	.byte	0x74
+	.byte	0x1c
+	.long	0x1d9
+	.uleb128 0x1
+	.long	.LASF38
+	.byte	0x9
+	.byte	0x1a
+	.uleb128 0x1
+	.long	.LASF39
+	.byte	0xa
+	.byte	0x1b
+	.uleb128 0x10
+	.long	.LASF42
+	.byte	0xd
+	.byte	0xe
+	.byte	0xd
+	.long	0x25f
+	.uleb128 0xa
+	.byte	0
+	.uleb128 0x1
+	.long	.LASF40
+	.byte	0xb
+	.byte	0xf
+	.uleb128 0x12
+	.long	.LASF41
+	.byte	0xc
+	.value	0x5d8
+	.uleb128 0x10
+	.long	.LASF43
+	.byte	0xe
+	.byte	0x4
+	.byte	0x6
+	.long	0x27c
+	.uleb128 0xa
+	.byte	0
+	.uleb128 0x1
+	.long	.LASF44
+	.byte	0xf
+	.byte	0xf9
+	.uleb128 0x1
+	.long	.LASF45
+	.byte	0x10
+	.byte	0x80
+	.uleb128 0x1
+	.long	.LASF46
+	.byte	0x8
+	.byte	0x29
+	.uleb128 0x1
+	.long	.LASF47
+	.byte	0x11
+	.byte	0xe
+	.uleb128 0x1
+	.long	.LASF48
+	.byte	0x12
+	.byte	0xef
+	.uleb128 0x12
+	.long	.LASF49
+	.byte	0x13
+	.value	0x104
+	.uleb128 0x1
+	.long	.LASF50
+	.byte	0x14
+	.byte	0x15
+	.uleb128 0x10
+	.long	.LASF51
+	.byte	0x15
+	.byte	0x5b
+	.byte	0xd
+	.long	0x2bc
+	.uleb128 0xa
+	.byte	0
+	.uleb128 0x1
+	.long	.LASF52
+	.byte	0x16
+	.byte	0xf
+	.uleb128 0x1
+	.long	.LASF53
+	.byte	0x17
+	.byte	0x48
+	.uleb128 0x1
+	.long	.LASF54
+	.byte	0x10
+	.byte	0x83
+	.uleb128 0x1
+	.long	.LASF55
+	.byte	0x18
+	.byte	0x11
+	.uleb128 0x1
+	.long	.LASF56
+	.byte	0x10
+	.byte	0x81
+	.uleb128 0x1
+	.long	.LASF57
+	.byte	0x18
+	.byte	0x10
+	.uleb128 0x1
+	.long	.LASF58
+	.byte	0x17
+	.byte	0x47
+	.uleb128 0x1
+	.long	.LASF59
+	.byte	0x16
+	.byte	0xe
+	.uleb128 0x13
+	.long	.LASF60
+	.byte	0x19
+	.byte	0x29
+	.long	0x2e
+	.long	0x30e
+	.uleb128 0xb
+	.long	0xf4
+	.uleb128 0xb
+	.long	0x135
+	.byte	0
+	.uleb128 0x13
+	.long	.LASF61
+	.byte	0x1a
+	.byte	0x9c
+	.long	0x2e
+	.long	0x328
+	.uleb128 0xb
+	.long	0xf4
+	.uleb128 0xb
+	.long	0xf4
+	.byte	0
+	.uleb128 0x1e
+	.long	.LASF62
+	.byte	0x1b
+	.value	0x164
+	.byte	0xc
+	.long	0x2e
+	.long	0x340
+	.uleb128 0xb
+	.long	0xf4
+	.uleb128 0xa
+	.byte	0
+	.uleb128 0xe
+	.long	.LASF63
+	.byte	0xd4
+	.quad	.LFB16
+	.quad	.LFE16-.LFB16
+	.uleb128 0x1
+	.byte	0x9c
+	.uleb128 0xe
+	.long	.LASF64
+	.byte	0xc0
+	.quad	.LFB15
+	.quad	.LFE15-.LFB15
+	.uleb128 0x1
+	.byte	0x9c
+	.uleb128 0xe
+	.long	.LASF65
+	.byte	0xb0
+	.quad	.LFB14
+	.quad	.LFE14-.LFB14
+	.uleb128 0x1
+	.byte	0x9c
+	.uleb128 0xe
+	.long	.LASF66
+	.byte	0xa3
+	.quad	.LFB13
+	.quad	.LFE13-.LFB13
+	.uleb128 0x1
+	.byte	0x9c
+	.uleb128 0x1f
+	.long	.LASF67
+	.byte	0x1
+	.byte	0x9b
+	.byte	0x1
+	.long	0x2e
+	.quad	.LFB12
+	.quad	.LFE12-.LFB12
+	.uleb128 0x1
+	.byte	0x9c
+	.uleb128 0x20
+	.long	.LASF88
+	.byte	0x1
+	.byte	0x95
+	.byte	0x1
+	.quad	.LFB11
+	.quad	.LFE11-.LFB11
+	.uleb128 0x1
+	.byte	0x9c
+	.uleb128 0x21
+	.long	.LASF89
+	.byte	0x1
+	.byte	0x87
+	.byte	0x1
+	.quad	.LFB10
+	.quad	.LFE10-.LFB10
+	.uleb128 0x1
+	.byte	0x9c
+	.long	0x425
+	.uleb128 0x4
+	.long	.LASF68
+	.byte	0x87
+	.byte	0x11
+	.long	0x11d
+	.uleb128 0x3
+	.byte	0x91
+	.sleb128 -232
+	.uleb128 0x2
+	.string	"fmt"
+	.byte	0x87
+	.byte	0x22
+	.long	0x11d
+	.uleb128 0x3
+	.byte	0x91
+	.sleb128 -240
+	.uleb128 0xa
+	.uleb128 0x7
+	.long	.LASF69
+	.byte	0x89
+	.byte	0xa
+	.long	0xe1
+	.uleb128 0x3
+	.byte	0x91
+	.sleb128 -216
+	.byte	0
+	.uleb128 0x5
+	.long	.LASF70
+	.byte	0x7c
+	.quad	.LFB9
+	.quad	.LFE9-.LFB9
+	.uleb128 0x1
+	.byte	0x9c
+	.long	0x45c
+	.uleb128 0x4
+	.long	.LASF68
+	.byte	0x7c
+	.byte	0x16
+	.long	0x11d
+	.uleb128 0x2
+	.byte	0x91
+	.sleb128 -24
+	.uleb128 0x2
+	.string	"p"
+	.byte	0x7c
+	.byte	0x26
+	.long	0x66
+	.uleb128 0x2
+	.byte	0x91
+	.sleb128 -32
+	.byte	0
+	.uleb128 0x5
+	.long	.LASF71
+	.byte	0x71
+	.quad	.LFB8
+	.quad	.LFE8-.LFB8
+	.uleb128 0x1
+	.byte	0x9c
+	.long	0x493
+	.uleb128 0x4
+	.long	.LASF68
+	.byte	0x71
+	.byte	0x13
+	.long	0x11d
+	.uleb128 0x2
+	.byte	0x91
+	.sleb128 -24
+	.uleb128 0x2
+	.string	"p"
+	.byte	0x71
+	.byte	0x23
+	.long	0x66
+	.uleb128 0x2
+	.byte	0x91
+	.sleb128 -32
+	.byte	0
+	.uleb128 0x5
+	.long	.LASF72
+	.byte	0x67
+	.quad	.LFB7
+	.quad	.LFE7-.LFB7
+	.uleb128 0x1
+	.byte	0x9c
+	.long	0x4cc
+	.uleb128 0x4
+	.long	.LASF68
+	.byte	0x67
+	.byte	0x12
+	.long	0x11d
+	.uleb128 0x2
+	.byte	0x91
+	.sleb128 -24
+	.uleb128 0x2
+	.string	"flg"
+	.byte	0x67
+	.byte	0x21
+	.long	0x105
+	.uleb128 0x2
+	.byte	0x91
+	.sleb128 -28
+	.byte	0
+	.uleb128 0x5
+	.long	.LASF73
+	.byte	0x5d
+	.quad	.LFB6
+	.quad	.LFE6-.LFB6
+	.uleb128 0x1
+	.byte	0x9c
+	.long	0x505
+	.uleb128 0x4
+	.long	.LASF68
+	.byte	0x5d
+	.byte	0x11
+	.long	0x11d
+	.uleb128 0x2
+	.byte	0x91
+	.sleb128 -24
+	.uleb128 0x2
+	.string	"flg"
+	.byte	0x5d
+	.byte	0x20
+	.long	0x105
+	.uleb128 0x2
+	.byte	0x91
+	.sleb128 -28
+	.byte	0
+	.uleb128 0x5
+	.long	.LASF74
+	.byte	0x53
+	.quad	.LFB5
+	.quad	.LFE5-.LFB5
+	.uleb128 0x1
+	.byte	0x9c
+	.long	0x54a
+	.uleb128 0x4
+	.long	.LASF68
+	.byte	0x53
+	.byte	0x19
+	.long	0x11d
+	.uleb128 0x2
+	.byte	0x91
+	.sleb128 -24
+	.uleb128 0x2
+	.string	"i1"
+	.byte	0x53
+	.byte	0x29
+	.long	0x66
+	.uleb128 0x2
+	.byte	0x91
+	.sleb128 -32
+	.uleb128 0x2
+	.string	"i2"
+	.byte	0x53
+	.byte	0x33
+	.long	0x66
+	.uleb128 0x2
+	.byte	0x91
+	.sleb128 -40
+	.byte	0
+	.uleb128 0x5
+	.long	.LASF75
+	.byte	0x49
+	.quad	.LFB4
+	.quad	.LFE4-.LFB4
+	.uleb128 0x1
+	.byte	0x9c
+	.long	0x582
+	.uleb128 0x4
+	.long	.LASF68
+	.byte	0x49
+	.byte	0x19
+	.long	0x11d
+	.uleb128 0x2
+	.byte	0x91
+	.sleb128 -24
+	.uleb128 0x2
+	.string	"i1"
+	.byte	0x49
+	.byte	0x27
+	.long	0x2e
+	.uleb128 0x2
+	.byte	0x91
+	.sleb128 -28
+	.byte	0
+	.uleb128 0x5
+	.long	.LASF76
+	.byte	0x3f
+	.quad	.LFB3
+	.quad	.LFE3-.LFB3
+	.uleb128 0x1
+	.byte	0x9c
+	.long	0x5c7
+	.uleb128 0x4
+	.long	.LASF68
+	.byte	0x3f
+	.byte	0x16
+	.long	0x11d
+	.uleb128 0x2
+	.byte	0x91
+	.sleb128 -24
+	.uleb128 0x2
+	.string	"i1"
+	.byte	0x3f
+	.byte	0x25
+	.long	0xf9
+	.uleb128 0x2
+	.byte	0x91
+	.sleb128 -32
+	.uleb128 0x2
+	.string	"i2"
+	.byte	0x3f
+	.byte	0x2e
+	.long	0xf9
+	.uleb128 0x2
+	.byte	0x91
+	.sleb128 -40
+	.byte	0
+	.uleb128 0x5
+	.long	.LASF77
+	.byte	0x35
+	.quad	.LFB2
+	.quad	.LFE2-.LFB2
+	.uleb128 0x1
+	.byte	0x9c
+	.long	0x60c
+	.uleb128 0x4
+	.long	.LASF68
+	.byte	0x35
+	.byte	0x15
+	.long	0x11d
+	.uleb128 0x2
+	.byte	0x91
+	.sleb128 -24
+	.uleb128 0x2
+	.string	"i1"
+	.byte	0x35
+	.byte	0x23
+	.long	0x2e
+	.uleb128 0x2
+	.byte	0x91
+	.sleb128 -28
+	.uleb128 0x2
+	.string	"i2"
+	.byte	0x35
+	.byte	0x2b
+	.long	0x2e
+	.uleb128 0x2
+	.byte	0x91
+	.sleb128 -32
+	.byte	0
+	.uleb128 0x5
+	.long	.LASF78
+	.byte	0x2b
+	.quad	.LFB1
+	.quad	.LFE1-.LFB1
+	.uleb128 0x1
+	.byte	0x9c
+	.long	0x651
+	.uleb128 0x4
+	.long	.LASF68
+	.byte	0x2b
+	.byte	0x18
+	.long	0x11d
+	.uleb128 0x2
+	.byte	0x91
+	.sleb128 -24
+	.uleb128 0x2
+	.string	"s1"
+	.byte	0x2b
+	.byte	0x29
+	.long	0x11d
+	.uleb128 0x2
+	.byte	0x91
+	.sleb128 -32
+	.uleb128 0x2
+	.string	"s2"
+	.byte	0x2b
+	.byte	0x34
+	.long	0x11d
+	.uleb128 0x2
+	.byte	0x91
+	.sleb128 -40
+	.byte	0
+	.uleb128 0x5
+	.long	.LASF79
+	.byte	0x1e
+	.quad	.LFB0
+	.quad	.LFE0-.LFB0
+	.uleb128 0x1
+	.byte	0x9c
+	.long	0x6a5
+	.uleb128 0x4
+	.long	.LASF80
+	.byte	0x1e
+	.byte	0x10
+	.long	0x68
+	.uleb128 0x2
+	.byte	0x91
+	.sleb128 -40
+	.uleb128 0x2
+	.string	"fn"
+	.byte	0x1e
+	.byte	0x1d
+	.long	0x6a6
+	.uleb128 0x2
+	.byte	0x91
+	.sleb128 -48
+	.uleb128 0x7
+	.long	.LASF81
+	.byte	0x20
+	.byte	0x6
+	.long	0x2e
+	.uleb128 0x2
+	.byte	0x91
+	.sleb128 -20
+	.uleb128 0x7
+	.long	.LASF82
+	.byte	0x21
+	.byte	0x6
+	.long	0x2e
+	.uleb128 0x2
+	.byte	0x91
+	.sleb128 -24
+	.byte	0
+	.uleb128 0x22
+	.uleb128 0x6
+	.long	0x6a5
+	.byte	0
+	.section	.debug_abbrev,"",@progbits
+.Ldebug_abbrev0:
+	.uleb128 0x1
+	.uleb128 0x2e
+	.byte	0
+	.uleb128 0x3f
+	.uleb128 0x19
+	.uleb128 0x3
+	.uleb128 0xe
+	.uleb128 0x3a
+	.uleb128 0xb
+	.uleb128 0x3b
+	.uleb128 0xb
+	.uleb128 0x39
+	.uleb128 0x21
+	.sleb128 13
+	.uleb128 0x27
+	.uleb128 0x19
+	.uleb128 0x3c
+	.uleb128 0x19
+	.byte	0
+	.byte	0
+	.uleb128 0x2
+	.uleb128 0x5
+	.byte	0
+	.uleb128 0x3
+	.uleb128 0x8
+	.uleb128 0x3a
+	.uleb128 0x21
+	.sleb128 1
+	.uleb128 0x3b
+	.uleb128 0xb
+	.uleb128 0x39
+	.uleb128 0xb
+	.uleb128 0x49
+	.uleb128 0x13
+	.uleb128 0x2
+	.uleb128 0x18
+	.byte	0
+	.byte	0
+	.uleb128 0x3
+	.uleb128 0x24
+	.byte	0
+	.uleb128 0xb
+	.uleb128 0xb
+	.uleb128 0x3e
+	.uleb128 0xb
+	.uleb128 0x3
+	.uleb128 0xe
+	.byte	0
+	.byte	0
+	.uleb128 0x4
+	.uleb128 0x5
+	.byte	0
+	.uleb128 0x3
+	.uleb128 0xe
+	.uleb128 0x3a
+	.uleb128 0x21
+	.sleb128 1
+	.uleb128 0x3b
+	.uleb128 0xb
+	.uleb128 0x39
+	.uleb128 0xb
+	.uleb128 0x49
+	.uleb128 0x13
+	.uleb128 0x2
+	.uleb128 0x18
+	.byte	0
+	.byte	0
+	.uleb128 0x5
+	.uleb128 0x2e
+	.byte	0x1
+	.uleb128 0x3f
+	.uleb128 0x19
+	.uleb128 0x3
+	.uleb128 0xe
+	.uleb128 0x3a
+	.uleb128 0x21
+	.sleb128 1
+	.uleb128 0x3b
+	.uleb128 0xb
+	.uleb128 0x39
+	.uleb128 0x21
+	.sleb128 1
+	.uleb128 0x27
+	.uleb128 0x19
+	.uleb128 0x11
+	.uleb128 0x1
+	.uleb128 0x12
+	.uleb128 0x7
+	.uleb128 0x40
+	.uleb128 0x18
+	.uleb128 0x7c
+	.uleb128 0x19
+	.uleb128 0x1
+	.uleb128 0x13
+	.byte	0
+	.byte	0
+	.uleb128 0x6
+	.uleb128 0xf
+	.byte	0
+	.uleb128 0xb
+	.uleb128 0x21
+	.sleb128 8
+	.uleb128 0x49
+	.uleb128 0x13
+	.byte	0
+	.byte	0
+	.uleb128 0x7
+	.uleb128 0x34
+	.byte	0
+	.uleb128 0x3
+	.uleb128 0xe
+	.uleb128 0x3a
+	.uleb128 0x21
+	.sleb128 1
+	.uleb128 0x3b
+	.uleb128 0xb
+	.uleb128 0x39
+	.uleb128 0xb
+	.uleb128 0x49
+	.uleb128 0x13
+	.uleb128 0x2
+	.uleb128 0x18
+	.byte	0
+	.byte	0
+	.uleb128 0x8
+	.uleb128 0x16
+	.byte	0
+	.uleb128 0x3
+	.uleb128 0xe
+	.uleb128 0x3a
+	.uleb128 0xb
+	.uleb128 0x3b
+	.uleb128 0xb
+	.uleb128 0x39
+	.uleb128 0xb
+	.uleb128 0x49
+	.uleb128 0x13
+	.byte	0
+	.byte	0
+	.uleb128 0x9
+	.uleb128 0x16
+	.byte	0
+	.uleb128 0x3
+	.uleb128 0xe
+	.uleb128 0x3a
+	.uleb128 0x21
+	.sleb128 4
+	.uleb128 0x3b
+	.uleb128 0x5
+	.uleb128 0x39
+	.uleb128 0xb
+	.uleb128 0x49
+	.uleb128 0x13
+	.byte	0
+	.byte	0
+	.uleb128 0xa
+	.uleb128 0x18
+	.byte	0
+	.byte	0
+	.byte	0
+	.uleb128 0xb
+	.uleb128 0x5
+	.byte	0
+	.uleb128 0x49
+	.uleb128 0x13
+	.byte	0
+	.byte	0
+	.uleb128 0xc
+	.uleb128 0xd
+	.byte	0
+	.uleb128 0x3
+	.uleb128 0xe
+	.uleb128 0x3a
+	.uleb128 0x21
+	.sleb128 2
+	.uleb128 0x3b
+	.uleb128 0x21
+	.sleb128 0
+	.uleb128 0x49
+	.uleb128 0x13
+	.uleb128 0x38
+	.uleb128 0xb
+	.byte	0
+	.byte	0
+	.uleb128 0xd
+	.uleb128 0xd
+	.byte	0
+	.uleb128 0x3
+	.uleb128 0xe
+	.uleb128 0x3a
+	.uleb128 0xb
+	.uleb128 0x3b
+	.uleb128 0xb
+	.uleb128 0x39
+	.uleb128 0xb
+	.uleb128 0x49
+	.uleb128 0x13
+	.uleb128 0x38
+	.uleb128 0xb
+	.byte	0
+	.byte	0
+	.uleb128 0xe
+	.uleb128 0x2e
+	.byte	0
+	.uleb128 0x3f
+	.uleb128 0x19
+	.uleb128 0x3
+	.uleb128 0xe
+	.uleb128 0x3a
+	.uleb128 0x21
+	.sleb128 1
+	.uleb128 0x3b
+	.uleb128 0xb
+	.uleb128 0x39
+	.uleb128 0x21
+	.sleb128 1
+	.uleb128 0x27
+	.uleb128 0x19
+	.uleb128 0x11
+	.uleb128 0x1
+	.uleb128 0x12
+	.uleb128 0x7
+	.uleb128 0x40
+	.uleb128 0x18
+	.uleb128 0x7c
+	.uleb128 0x19
+	.byte	0
+	.byte	0
+	.uleb128 0xf
+	.uleb128 0x13
+	.byte	0x1
+	.uleb128 0x3
+	.uleb128 0xe
+	.uleb128 0xb
+	.uleb128 0x21
+	.sleb128 16
+	.uleb128 0x3a
+	.uleb128 0xb
+	.uleb128 0x3b
+	.uleb128 0xb
+	.uleb128 0x39
+	.uleb128 0xb
+	.uleb128 0x1
+	.uleb128 0x13
+	.byte	0
+	.byte	0
+	.uleb128 0x10
+	.uleb128 0x2e
+	.byte	0x1
+	.uleb128 0x3f
+	.uleb128 0x19
+	.uleb128 0x3
+	.uleb128 0xe
+	.uleb128 0x3a
+	.uleb128 0xb
+	.uleb128 0x3b
+	.uleb128 0xb
+	.uleb128 0x39
+	.uleb128 0xb
+	.uleb128 0x3c
+	.uleb128 0x19
+	.uleb128 0x1
+	.uleb128 0x13
+	.byte	0
+	.byte	0
+	.uleb128 0x11
+	.uleb128 0xd
+	.byte	0
+	.uleb128 0x3
+	.uleb128 0x8
+	.uleb128 0x3a
+	.uleb128 0xb
+	.uleb128 0x3b
+	.uleb128 0xb
+	.uleb128 0x39
+	.uleb128 0x21
+	.sleb128 9
+	.uleb128 0x49
+	.uleb128 0x13
+	.uleb128 0x38
+	.uleb128 0xb
+	.byte	0
+	.byte	0
+	.uleb128 0x12
+	.uleb128 0x2e
+	.byte	0
+	.uleb128 0x3f
+	.uleb128 0x19
+	.uleb128 0x3
+	.uleb128 0xe
+	.uleb128 0x3a
+	.uleb128 0xb
+	.uleb128 0x3b
+	.uleb128 0x5
+	.uleb128 0x39
+	.uleb128 0x21
+	.sleb128 13
+	.uleb128 0x27
+	.uleb128 0x19
+	.uleb128 0x3c
+	.uleb128 0x19
+	.byte	0
+	.byte	0
+	.uleb128 0x13
+	.uleb128 0x2e
+	.byte	0x1
+	.uleb128 0x3f
+	.uleb128 0x19
+	.uleb128 0x3
+	.uleb128 0xe
+	.uleb128 0x3a
+	.uleb128 0xb
+	.uleb128 0x3b
+	.uleb128 0xb
+	.uleb128 0x39
+	.uleb128 0x21
+	.sleb128 12
+	.uleb128 0x27
+	.uleb128 0x19
+	.uleb128 0x49
+	.uleb128 0x13
+	.uleb128 0x3c
+	.uleb128 0x19
+	.uleb128 0x1
+	.uleb128 0x13
+	.byte	0
+	.byte	0
+	.uleb128 0x14
+	.uleb128 0x11
+	.byte	0x1
+	.uleb128 0x25
+	.uleb128 0xe
+	.uleb128 0x13
+	.uleb128 0xb
+	.uleb128 0x3
+	.uleb128 0x1f
+	.uleb128 0x1b
+	.uleb128 0x1f
+	.uleb128 0x11
+	.uleb128 0x1
+	.uleb128 0x12
+	.uleb128 0x7
+	.uleb128 0x10
+	.uleb128 0x17
+	.byte	0
+	.byte	0
+	.uleb128 0x15
+	.uleb128 0x24
+	.byte	0
+	.uleb128 0xb
+	.uleb128 0xb
+	.uleb128 0x3e
+	.uleb128 0xb
+	.uleb128 0x3
+	.uleb128 0x8
+	.byte	0
+	.byte	0
+	.uleb128 0x16
+	.uleb128 0xf
+	.byte	0
+	.uleb128 0xb
+	.uleb128 0xb
+	.byte	0
+	.byte	0
+	.uleb128 0x17
+	.uleb128 0x26
+	.byte	0
+	.uleb128 0x49
+	.uleb128 0x13
+	.byte	0
+	.byte	0
+	.uleb128 0x18
+	.uleb128 0x16
+	.byte	0
+	.uleb128 0x3
+	.uleb128 0xe
+	.uleb128 0x49
+	.uleb128 0x13
+	.byte	0
+	.byte	0
+	.uleb128 0x19
+	.uleb128 0x1
+	.byte	0x1
+	.uleb128 0x49
+	.uleb128 0x13
+	.uleb128 0x1
+	.uleb128 0x13
+	.byte	0
+	.byte	0
+	.uleb128 0x1a
+	.uleb128 0x21
+	.byte	0
+	.uleb128 0x49
+	.uleb128 0x13
+	.uleb128 0x2f
+	.uleb128 0xb
+	.byte	0
+	.byte	0
+	.uleb128 0x1b
+	.uleb128 0x13
+	.byte	0x1
+	.uleb128 0x3
+	.uleb128 0xe
+	.uleb128 0xb
+	.uleb128 0xb
+	.uleb128 0x3a
+	.uleb128 0xb
+	.uleb128 0x3b
+	.uleb128 0xb
+	.uleb128 0x1
+	.uleb128 0x13
+	.byte	0
+	.byte	0
+	.uleb128 0x1c
+	.uleb128 0x34
+	.byte	0
+	.uleb128 0x3
+	.uleb128 0xe
+	.uleb128 0x3a
+	.uleb128 0xb
+	.uleb128 0x3b
+	.uleb128 0xb
+	.uleb128 0x39
+	.uleb128 0xb
+	.uleb128 0x49
+	.uleb128 0x13
+	.uleb128 0x3f
+	.uleb128 0x19
+	.uleb128 0x3c
+	.uleb128 0x19
+	.byte	0
+	.byte	0
+	.uleb128 0x1d
+	.uleb128 0x2e
+	.byte	0
+	.uleb128 0x3f
+	.uleb128 0x19
+	.uleb128 0x3
+	.uleb128 0xe
+	.uleb128 0x3a
+	.uleb128 0xb
+	.uleb128 0x3b
+	.uleb128 0xb
+	.uleb128 0x39
+	.uleb128 0xb
+	.uleb128 0x27
+	.uleb128 0x19
+	.uleb128 0x49
+	.uleb128 0x13
+	.uleb128 0x3c
+	.uleb128 0x19
+	.byte	0
+	.byte	0
+	.uleb128 0x1e
+	.uleb128 0x2e
+	.byte	0x1
+	.uleb128 0x3f
+	.uleb128 0x19
+	.uleb128 0x3
+	.uleb128 0xe
+	.uleb128 0x3a
+	.uleb128 0xb
+	.uleb128 0x3b
+	.uleb128 0x5
+	.uleb128 0x39
+	.uleb128 0xb
+	.uleb128 0x27
+	.uleb128 0x19
+	.uleb128 0x49
+	.uleb128 0x13
+	.uleb128 0x3c
+	.uleb128 0x19
+	.uleb128 0x1
+	.uleb128 0x13
+	.byte	0
+	.byte	0
+	.uleb128 0x1f
+	.uleb128 0x2e
+	.byte	0
+	.uleb128 0x3f
+	.uleb128 0x19
+	.uleb128 0x3
+	.uleb128 0xe
+	.uleb128 0x3a
+	.uleb128 0xb
+	.uleb128 0x3b
+	.uleb128 0xb
+	.uleb128 0x39
+	.uleb128 0xb
+	.uleb128 0x49
+	.uleb128 0x13
+	.uleb128 0x11
+	.uleb128 0x1
+	.uleb128 0x12
+	.uleb128 0x7
+	.uleb128 0x40
+	.uleb128 0x18
+	.uleb128 0x7a
+	.uleb128 0x19
+	.byte	0
+	.byte	0
+	.uleb128 0x20
+	.uleb128 0x2e
+	.byte	0
+	.uleb128 0x3f
+	.uleb128 0x19
+	.uleb128 0x3
+	.uleb128 0xe
+	.uleb128 0x3a
+	.uleb128 0xb
+	.uleb128 0x3b
+	.uleb128 0xb
+	.uleb128 0x39
+	.uleb128 0xb
+	.uleb128 0x11
+	.uleb128 0x1
+	.uleb128 0x12
+	.uleb128 0x7
+	.uleb128 0x40
+	.uleb128 0x18
+	.uleb128 0x7c
+	.uleb128 0x19
+	.byte	0
+	.byte	0
+	.uleb128 0x21
+	.uleb128 0x2e
+	.byte	0x1
+	.uleb128 0x3
+	.uleb128 0xe
+	.uleb128 0x3a
+	.uleb128 0xb
+	.uleb128 0x3b
+	.uleb128 0xb
+	.uleb128 0x39
+	.uleb128 0xb
+	.uleb128 0x27
+	.uleb128 0x19
+	.uleb128 0x11
+	.uleb128 0x1
+	.uleb128 0x12
+	.uleb128 0x7
+	.uleb128 0x40
+	.uleb128 0x18
+	.uleb128 0x7c
+	.uleb128 0x19
+	.uleb128 0x1
+	.uleb128 0x13
+	.byte	0
+	.byte	0
+	.uleb128 0x22
+	.uleb128 0x15
+	.byte	0
+	.uleb128 0x27
+	.uleb128 0x19
+	.byte	0
+	.byte	0
+	.byte	0
+	.section	.debug_aranges,"",@progbits
+	.long	0x2c
+	.value	0x2
+	.long	.Ldebug_info0
+	.byte	0x8
+	.byte	0
+	.value	0
+	.value	0
+	.quad	.Ltext0
+	.quad	.Letext0-.Ltext0
+	.quad	0
+	.quad	0
+	.section	.debug_line,"",@progbits
+.Ldebug_line0:
+	.section	.debug_str,"MS",@progbits,1
+.LASF30:
+	.string	"PhaseSymbolDataListCons"
+.LASF10:
+	.string	"float"
+.LASF11:
+	.string	"double"
+.LASF53:
+	.string	"comsgFini"
+.LASF87:
+	.string	"saveAndEmptyAllPhaseSymbolData"
+.LASF76:
+	.string	"testAIntEqual"
+.LASF60:
+	.string	"avprintf"
+.LASF55:
+	.string	"scobindFiniFile"
+.LASF89:
+	.string	"testFail"
+.LASF66:
+	.string	"initFile"
+.LASF86:
+	.string	"fluidLevel"
+.LASF24:
+	.string	"Symbol"
+.LASF47:
+	.string	"ssymInit"
+.LASF50:
+	.string	"osInit"
+.LASF17:
+	.string	"va_list"
+.LASF32:
+	.string	"rest"
+.LASF85:
+	.string	"__va_list_tag"
+.LASF41:
+	.string	"foamInit"
+.LASF42:
+	.string	"tinferInit"
+.LASF34:
+	.string	"failed"
+.LASF39:
+	.string	"sposInit"
+.LASF81:
+	.string	"wasFailed"
+.LASF27:
+	.string	"phSymbolData"
+.LASF7:
+	.string	"short int"
+.LASF74:
+	.string	"testPointerEqual"
+.LASF54:
+	.string	"stabFiniFile"
+.LASF88:
+	.string	"testShowSummary"
+.LASF18:
+	.string	"long long int"
+.LASF70:
+	.string	"testIsNotNull"
+.LASF8:
+	.string	"long int"
+.LASF13:
+	.string	"fp_offset"
+.LASF67:
+	.string	"testAllPassed"
+.LASF12:
+	.string	"gp_offset"
+.LASF38:
+	.string	"ablogInit"
+.LASF80:
+	.string	"name"
+.LASF44:
+	.string	"tfInit"
+.LASF21:
+	.string	"Pointer"
+.LASF2:
+	.string	"unsigned char"
+.LASF65:
+	.string	"finiFile"
+.LASF82:
+	.string	"localFluidLevel"
+.LASF6:
+	.string	"signed char"
+.LASF4:
+	.string	"unsigned int"
+.LASF69:
+	.string	"argp"
+.LASF51:
+	.string	"cmdDebugReset"
+.LASF37:
+	.string	"dbFini"
+.LASF77:
+	.string	"testIntEqual"
+.LASF22:
+	.string	"String"
+.LASF83:
+	.string	"GNU C99 12.2.0 -mtune=generic -march=x86-64 -g -O0 -std=c99 -fasynchronous-unwind-tables"
+.LASF3:
+	.string	"short unsigned int"
+.LASF15:
+	.string	"reg_save_area"
+.LASF9:
+	.string	"char"
+.LASF64:
+	.string	"init"
+.LASF62:
+	.string	"printf"
+.LASF52:
+	.string	"macexFiniFile"
+.LASF71:
+	.string	"testIsNull"
+.LASF46:
+	.string	"dbInit"
+.LASF28:
+	.string	"data"
+.LASF63:
+	.string	"fini"
+.LASF57:
+	.string	"scobindInitFile"
+.LASF5:
+	.string	"long unsigned int"
+.LASF84:
+	.string	"__builtin_va_list"
+.LASF29:
+	.string	"PhaseSymbolData"
+.LASF14:
+	.string	"overflow_arg_area"
+.LASF23:
+	.string	"MostAlignedType"
+.LASF45:
+	.string	"stabInitGlobal"
+.LASF59:
+	.string	"macexInitFile"
+.LASF35:
+	.string	"count"
+.LASF25:
+	.string	"info"
+.LASF40:
+	.string	"optInit"
+.LASF61:
+	.string	"strcmp"
+.LASF78:
+	.string	"testStringEqual"
+.LASF79:
+	.string	"showTest"
+.LASF49:
+	.string	"sxiInit"
+.LASF16:
+	.string	"__gnuc_va_list"
+.LASF75:
+	.string	"testIntIsNotZero"
+.LASF33:
+	.string	"PhaseSymbolDataList"
+.LASF72:
+	.string	"testFalse"
+.LASF19:
+	.string	"AInt"
+.LASF43:
+	.string	"fmttsInit"
+.LASF36:
+	.string	"inFile"
+.LASF26:
+	.string	"symbol"
+.LASF56:
+	.string	"stabInitFile"
+.LASF73:
+	.string	"testTrue"
+.LASF68:
+	.string	"testName"
+.LASF58:
+	.string	"comsgInit"
+.LASF48:
+	.string	"keyInit"
+.LASF31:
+	.string	"first"
+.LASF20:
+	.string	"Bool"
+	.section	.debug_line_str,"MS",@progbits,1
+.LASF1:
+	.string	"/repo/aldor/aldor/src"
+.LASF0:
+	.string	"test/testlib.c"
+	.ident	"GCC: (Debian 12.2.0-14+deb12u1) 12.2.0"
+	.section	.note.GNU-stack,"",@progbits
